@@ -458,10 +458,21 @@ func Run(id, tier string, seed int, workers int) int {
 	var wg sync.WaitGroup
 	var firstVM *vm.VM
 	var vmMu sync.Mutex
-	deadline := time.Time{}
-	if d, ok := chk.Timeout[tier]; ok {
-		deadline = t0.Add(d)
+	// global time budget of one check run: cases not started by then are reported as not explored
+	budget := 10 * time.Minute
+	if tier == "thorough" {
+		budget = 45 * time.Minute
 	}
+	if d, ok := chk.Timeout[tier]; ok {
+		budget = d
+	}
+	if v := os.Getenv("VERIF_BUDGET_MIN"); v != "" {
+		var mins int
+		if _, err := fmt.Sscan(v, &mins); err == nil && mins > 0 {
+			budget = time.Duration(mins) * time.Minute
+		}
+	}
+	deadline := t0.Add(budget)
 	for w := 0; w < workers; w++ {
 		wg.Add(1)
 		go func() {
@@ -494,12 +505,13 @@ func Run(id, tier string, seed int, workers int) int {
 			for i := range jobs {
 				c := cases[i]
 				spec := vm.CaseSpec{ID: c.ID, Pkg: pkgPath(c.Pkg), Fn: c.Fn, Args: c.Args, MapOrder: c.MapOrder, MaxPaths: c.MaxPaths}
-				if !deadline.IsZero() {
-					left := time.Until(deadline)
-					if left < time.Second {
-						left = time.Second
-					}
-					spec.MaxTime = left
+				if time.Now().After(deadline) {
+					results[i] = caseOutcome{c, vm.CaseResult{Spec: spec, Truncated: "not explored: the check's time budget was used up before this case started",
+						Inconclusive: map[string]int{}, AssertUnk: map[string]int{}}}
+					continue
+				}
+				if left := time.Until(deadline); left < 15*time.Minute {
+					spec.MaxTime = left + 30*time.Second
 				}
 				if spec.MaxTime == 0 {
 					spec.MaxTime = 90 * time.Second
@@ -891,6 +903,16 @@ func writeEvidence(chk *Check, tier string, seed int, t0 time.Time, results []ca
 	cov["inconclusive_paths"] = incon
 	cov["inconclusive_reasons"] = inconMsgs
 	cov["truncated_cases"] = truncated
+	notStarted := 0
+	for _, r := range results {
+		if strings.HasPrefix(r.res.Truncated, "not explored") {
+			notStarted++
+		}
+	}
+	cov["cases_not_started_time_budget"] = notStarted
+	if len(truncated) > 40 {
+		cov["truncated_cases"] = append(truncated[:40], fmt.Sprintf("... and %d more", len(truncated)-40))
+	}
 	cov["functions_encoded"] = fns
 	cov["functions_encoded_count"] = len(fnSet)
 	cov["bounds"] = chk.Bounds[tier]
